@@ -1344,5 +1344,8 @@ def run(chk, tier):
     chk.guard('C01.m', lambda: rule_lvalues(chk, prog, tier))
     chk.guard('C01.n', lambda: rule_compound_assign(chk, prog, tier))
     chk.guard('C01.o', lambda: rule_shortcircuit(chk, prog, tier))
+    from props import c05, c07
+    chk.guard('C05.c', lambda: c05.rule_binary_types(chk, prog, tier))     # operand conversions / result types the lowering relies on
+    chk.guard('C07.c', lambda: c07.rule_funcinit(chk, prog, tier))         # automatic initialisation
     from props import c01f
     chk.guard('C01.f', lambda: c01f.rule_statements(chk, prog, tier))
